@@ -37,8 +37,8 @@ def strategy(tier):
     cfg = gen.cfg_st(udf=st.just(True))
     xcfg = gen.cfg_st(udf=st.just(True), rr=st.just(None), xa=st.just(False))
     progs = [gen.mixed(True, cfg), gen.links(cfg, True), gen.growshrink(cfg, True), gen.growshrink(cfg, False), gen.deep(cfg, True), gen.boot(cfg, True),
-             gen.exactfill(xcfg, True), gen.exactfill(xcfg, False), gen.bootlinks(cfg, True), gen.readd(cfg, True), gen.readd(cfg, False), gen.symcomps(gen.cfg_st(udf=st.just(True), rr=st.sampled_from([None, '1.09', '1.12'])), True)]
-    names = ['mixed', 'links', 'growshrink', 'growshrink', 'deep', 'boot', 'exactfill', 'exactfill', 'bootlinks', 'readd', 'readd', 'symcomps']
+             gen.exactfill(xcfg, True), gen.exactfill(xcfg, False), gen.bootlinks(cfg, True), gen.readd(cfg, True), gen.readd(cfg, False), gen.symcomps(gen.cfg_st(udf=st.just(True), rr=st.sampled_from([None, '1.09', '1.12'])), True), gen.udflinks(cfg, True), gen.udflinks(None, True)]
+    names = ['mixed', 'links', 'growshrink', 'growshrink', 'deep', 'boot', 'exactfill', 'exactfill', 'bootlinks', 'readd', 'readd', 'symcomps', 'udflinks', 'udflinks']
     return st.tuples(st.one_of(*[p.map(lambda x, n=n: dict(x, profile=n)) for p, n in zip(progs, names)]), st.none())
 
 
